@@ -30,10 +30,19 @@ Definition blk_ast (bk : bkind) (k : N) (nm : namestr) (fa : list N) (b : list a
   | BMeth => AMethod k nm (nth 0 fa 0) b
   end.
 
+Definition cst_ast (d : decl) : ast := AConst (d_op d) (d_v d).
+Definition leaf_ast (lk : lkind) (nm : namestr) (fa : list N) (ta : list decl) : ast :=
+  match lk with
+  | LMutex => AMutex nm (nth 0 fa 0)
+  | LEvent => AEvent nm
+  | LOpReg => AOpRegion nm (nth 0 fa 0) (cst_ast (nth 0 ta (mkDecl 0 0 0))) (cst_ast (nth 1 ta (mkDecl 0 0 0)))
+  end.
+
 Fixpoint item_ast (it : item) : ast :=
   match it with
   | IName d => decl_ast d
   | IBlk bk k seg fa body => blk_ast bk k (seg_name seg) fa (map item_ast body)
+  | ILeaf lk seg fa ta => leaf_ast lk (seg_name seg) fa ta
   end.
 
 (** the right number of fixed arguments everywhere *)
@@ -41,6 +50,7 @@ Fixpoint shape_ok (it : item) : bool :=
   match it with
   | IName _ => true
   | IBlk bk _ _ fa body => Nat.eqb (length fa) (length (bk_ws bk)) && forallb shape_ok body
+  | ILeaf lk _ fa ta => Nat.eqb (length fa) (length (lk_ws lk)) && Nat.eqb (length ta) (lk_nt lk)
   end.
 
 Definition simple_name (nm : namestr) : option N :=
@@ -98,6 +108,7 @@ Fixpoint no_meth (it : item) : bool :=
   match it with
   | IName _ => true
   | IBlk bk _ _ _ body => match bk with BMeth => false | _ => forallb no_meth body end
+  | ILeaf _ _ _ _ => true
   end.
 
 Definition in_fragment_F1 (tables : list (list ast)) : bool :=
@@ -155,7 +166,7 @@ Qed.
 (** ---- encoding ---- *)
 Lemma encode_item : forall it, shape_ok it = true -> encode (item_ast it) = enc_item it.
 Proof.
-  fix IH 1. intros [d|bk k seg fa body] Hs.
+  fix IH 1. intros [d|bk k seg fa body|lk seg fa ta] Hs.
   - apply encode_decl.
   - cbn [shape_ok] in Hs. apply andb_prop in Hs. destruct Hs as [Hl Hb]. apply Nat.eqb_eq in Hl.
     assert (HL : flat_map encode (map item_ast body) = enc_items body).
@@ -165,6 +176,11 @@ Proof.
     destruct bk; cbn [bk_ws length] in Hl; (destruct fa as [|a0 [|a1 [|a2 [|a3 fa]]]]; try discriminate Hl);
       cbn [blk_ast encode nth]; unfold enc_pkg; rewrite enc_seg_name, HL; cbn [bfx bk_ws combine enc_fx fw_enc bk_op app];
       rewrite <- ?app_assoc; reflexivity.
+  - cbn [shape_ok] in Hs. apply andb_prop in Hs. destruct Hs as [Hl Ht]. apply Nat.eqb_eq in Hl. apply Nat.eqb_eq in Ht.
+    rewrite enc_leaf. cbn [item_ast].
+    destruct lk; cbn [lk_ws lk_nt length] in Hl, Ht; (destruct fa as [|a0 [|a1 fa]]; try discriminate Hl); (destruct ta as [|c0 [|c1 [|c2 ta]]]; try discriminate Ht);
+      cbn [leaf_ast cst_ast encode nth]; rewrite enc_seg_name; cbn [lfx lk_ws combine enc_fx fw_enc lk_op enc_ta flat_map app]; unfold enc_const;
+      rewrite ?app_nil_r, <- ?app_assoc; reflexivity.
 Qed.
 
 Lemma encode_items its : forallb shape_ok its = true -> encode_table (map item_ast its) = enc_items its.
@@ -189,7 +205,7 @@ Qed.
 
 Lemma wf_item e ms : forall it scope, shape_ok it = true -> wf_ast e ms scope (item_ast it) = true -> item_okb it = true.
 Proof.
-  fix IH 1. intros [d|bk k seg fa body] scope Hs Hw.
+  fix IH 1. intros [d|bk k seg fa body|lk seg fa ta] scope Hs Hw.
   - cbn [item_ast item_okb]. unfold decl_ast in Hw. cbn [wf_ast] in Hw.
     apply andb_prop in Hw. destruct Hw as [Hw _]. apply andb_prop in Hw. destruct Hw as [Hw Hc].
     apply andb_prop in Hw. destruct Hw as [Hn _].
@@ -219,6 +235,18 @@ Proof.
       rewrite Hlead, Hseg; cbn [andb bfx bk_ws combine fx_okb forallb enc_fx fw_enc app];
       repeat (apply andb_true_intro; split); try assumption; try (eapply HB; eassumption);
       try (eapply pkglen_of_k; [eassumption|]; unfold enc_items, lenN; repeat (rewrite ?app_length, ?len_le_bytes; cbn [length]); lia).
+  - cbn [shape_ok] in Hs. apply andb_prop in Hs. destruct Hs as [Hl Ht]. pose proof Hl as Hl'. pose proof Ht as Ht'. apply Nat.eqb_eq in Hl. apply Nat.eqb_eq in Ht.
+    cbn [item_okb]. rewrite Hl', Ht'. cbn [item_ast] in Hw.
+    destruct lk; cbn [lk_ws lk_nt length] in Hl, Ht; (destruct fa as [|a0 [|a1 fa]]; try discriminate Hl); (destruct ta as [|c0 [|c1 [|c2 ta]]]; try discriminate Ht);
+      cbn [leaf_ast cst_ast wf_ast nth is_expr] in Hw;
+      remember (name_ok (seg_name seg)) as NOK eqn:ENOK;
+      repeat (apply andb_prop in Hw; destruct Hw as [Hw ?]); subst NOK;
+      destruct (seg_ok_parts seg Hw) as (Hlead & Hseg);
+      rewrite Hlead, Hseg; cbn [andb lfx lk_ws combine fx_okb forallb cst_okb];
+      repeat (apply andb_true_intro; split); try assumption; try reflexivity;
+      try (match goal with Hv : (_ <? N.shiftl 1 _) = true |- _ => rewrite N.shiftl_1_l in Hv; exact Hv end);
+      try (match goal with Hc : is_const_op (d_op ?c) && _ = true |- is_constb (d_op ?c) = true => apply andb_prop in Hc; exact (proj1 Hc) end);
+      try (match goal with Hc : is_const_op (d_op ?c) && _ = true |- (d_v ?c <? _) = true => apply andb_prop in Hc; destruct Hc as [_ Hc]; rewrite N.shiftl_1_l in Hc; exact Hc end).
 Qed.
 
 Lemma wf_items e ms its : forallb shape_ok its = true -> forallb (wf_ast e ms []) (map item_ast its) = true -> forallb item_okb its = true.
@@ -230,11 +258,11 @@ Qed.
 
 (** ---- the specification side ---- *)
 Lemma item_is_decl it : is_decl (item_ast it) = true.
-Proof. destruct it as [d|bk k seg fa body]; [reflexivity|destruct bk; reflexivity]. Qed.
+Proof. destruct it as [d|bk k seg fa body|lk seg fa ta]; [reflexivity|destruct bk; reflexivity|destruct lk; reflexivity]. Qed.
 
 Lemma entries_item e : forall it scope, shape_ok it = true -> entries e scope (item_ast it) = sentry scope it.
 Proof.
-  fix IH 1. intros [d|bk k seg fa body] scope Hs.
+  fix IH 1. intros [d|bk k seg fa body|lk seg fa ta] scope Hs.
   - cbn [item_ast sentry]. unfold decl_ast, name_entry. cbn [entries]. unfold decl_path, start_scope. cbn [n_root n_carets n_segs].
     destruct (lenN scope <? 0) eqn:E0; [apply N.ltb_lt in E0; lia|]. change (N.to_nat 0) with 0%nat. rewrite Nat.sub_0_r, firstn_all.
     cbn [r_expr]. unfold const_tokens, const_val, tok_const. destruct (const_bytes (d_op d)); reflexivity.
@@ -257,6 +285,16 @@ Proof.
     destruct bk; cbn [bk_ws length] in Hl; (destruct fa as [|a0 [|a1 [|a2 [|a3 fa]]]]; try discriminate Hl);
       cbn [blk_ast entries nth]; rewrite Hdp; rewrite ?HBody, ?HDecls, ?HSeq; unfold blk_entry; cbn [bfx bk_ws combine flat_map fw_op bk_op app];
       rewrite ?app_nil_r; reflexivity.
+  - cbn [shape_ok] in Hs. apply andb_prop in Hs. destruct Hs as [Hl Ht]. apply Nat.eqb_eq in Hl. apply Nat.eqb_eq in Ht.
+    assert (Hdp : decl_path scope (seg_name seg) = Some (scope ++ [seg])).
+    { unfold decl_path, start_scope. cbn [seg_name n_root n_carets n_segs]. destruct (lenN scope <? 0) eqn:E0; [apply N.ltb_lt in E0; lia|].
+      change (N.to_nat 0) with 0%nat. rewrite Nat.sub_0_r, firstn_all. reflexivity. }
+    assert (Hcst : forall d, r_expr e scope (cst_ast d) = cst_tokens d).
+    { intros d. unfold cst_ast, cst_tokens. cbn [r_expr]. unfold const_tokens, const_val, tok_const. destruct (const_bytes (d_op d)); reflexivity. }
+    cbn [item_ast sentry].
+    destruct lk; cbn [lk_ws lk_nt length] in Hl, Ht; (destruct fa as [|a0 [|a1 fa]]; try discriminate Hl); (destruct ta as [|c0 [|c1 [|c2 ta]]]; try discriminate Ht);
+      cbn [leaf_ast entries nth]; rewrite Hdp; rewrite ?Hcst; unfold leaf_entry; cbn [lfx lk_ws combine flat_map fw_op lk_op app];
+      rewrite ?app_nil_r, <- ?app_assoc; reflexivity.
 Qed.
 
 Lemma entries_items e its : forallb shape_ok its = true -> flat_map (entries e []) (map item_ast its) = sentries [] its.
